@@ -259,6 +259,58 @@ def sany(specdir, module):
     return p.returncode, p.stdout.decode('utf8', 'replace')
 
 
+# --------------------------------------------------------------------------- the repository suite as an input corpus
+
+_CORPUS = None
+
+
+def suite_corpus():
+    """{label: [{'a': args, 'k': kwargs, 't': test id}, ...]}: every call the repository's own test-suite makes to the
+    functions the specifications describe, harvested by running the suite of the working tree under
+    harness/pytest_trace.py.  The checks feed these inputs through their own pipelines (same monitors) - the inputs
+    nearest to what the tests exercise, judged by the specification instead of the tests' assertions.  A bonus input
+    class only: an empty corpus (suite cannot run) is not an error."""
+    global _CORPUS
+    if _CORPUS is not None:
+        return _CORPUS
+    _CORPUS = {}
+    d = tempfile.mkdtemp(prefix='athverif-corpus-')
+    try:
+        out = os.path.join(d, 'corpus.ndjson')
+        env = dict(os.environ, VERIF_PYTEST_TRACE=out, VERIF_PYTEST_CORPUS='1', PYTHONPATH=VERIF + os.pathsep + REPO,
+                   PYTHONDONTWRITEBYTECODE='1')
+        env[GUARD] = '1'
+        subprocess.run([sys.executable, '-m', 'pytest', '-q', '-p', 'no:cacheprovider', '-p', 'harness.pytest_trace', 'tests/'],
+                       cwd=REPO, env=env, stdout=subprocess.PIPE, stderr=subprocess.STDOUT, timeout=900)
+        if os.path.exists(out):
+            with open(out) as f:
+                for line in f:
+                    rec = json.loads(line)
+                    if rec.get('kind') == 'corpus':
+                        _CORPUS = rec['calls']
+    except Exception:
+        _CORPUS = {}
+    finally:
+        shutil.rmtree(d, ignore_errors=True)
+    return _CORPUS
+
+
+def corpus_args(label_suffixes, pos=0, typ=str):
+    """Distinct values of positional argument `pos` (of type `typ`) over the corpus entries whose label ends with one of
+    `label_suffixes`."""
+    out, seen = [], set()
+    for label, calls in sorted(suite_corpus().items()):
+        if not any(label.endswith(sfx) for sfx in label_suffixes):
+            continue
+        for c in calls:
+            a = c.get('a', [])
+            if len(a) > pos and isinstance(a[pos], typ) and not isinstance(a[pos], bool):
+                if a[pos] not in seen:
+                    seen.add(a[pos])
+                    out.append(a[pos])
+    return out
+
+
 # --------------------------------------------------------------------------- trace files
 
 def write_ndjson(path, records):
